@@ -80,3 +80,13 @@ Theorem C15_in_place_write_keeps_a_stale_tail : forall old new, (length new < le
   exists junk, junk <> [] /\ FileStore.write_file false old new = new ++ junk.
 Proof. exact FileStoreProofs.write_in_place_keeps_tail. Qed.
 Print Assumptions C15_in_place_write_keeps_a_stale_tail.
+
+(* the dump itself returns: read as a lock protocol (Gen/Locks.v, regenerated from the source), Dump of either cache is a balanced
+   operation that never acquires a lock it already holds (sync.RWMutex is not re-entrant: a second RLock of the same shard by the
+   same goroutine waits for ever once a writer has queued up in between, and shutdown() would never return) *)
+From VF Require Model.LockProto Gen.Locks.
+Theorem C15_dump_is_a_balanced_lock_operation :
+  forallb (fun s => LockProto.balanced (LockProto.inst s Gen.Locks.ipfix_dump) && LockProto.balanced (LockProto.inst s Gen.Locks.nf9_dump))
+          (seq 0 LockProto.nshards) = true.
+Proof. vm_compute. reflexivity. Qed.
+Print Assumptions C15_dump_is_a_balanced_lock_operation.
